@@ -4,7 +4,8 @@ import math
 import warnings
 
 from ..core import World, Violation, Skip, SimCrash
-from ..seams import SimFS, SimClock, SimSolver
+from ..seams import SimFS, SimClock, SimSolver, SimAlloc
+from ..filekit import side_stream
 from ..refmodels import equil
 
 ELEMENTS = ['C', 'H', 'O', 'N']
@@ -38,10 +39,11 @@ class WorldC16(World):
               'solver-raise-fired', 'early-stop-oracle-sensitive', 'natural-nonconvergence', 'span>=30', 'rank-deficient-network',
               'trace-species-present', 'loaded-from-thermdat', 'load-read-fault', 'high-pressure', 'low-pressure',
               'twelve-species', 'four-elements', 'optimality-judged', 'deep-trace-not-judged', 'solver-exit-mode-fired',
-              'thermdat-rewritten-in-place', 'corrupt-file-refused', 'solve-with-nan-thermo', 'above-a-species-fitted-range', 'warnings-as-errors')
+              'thermdat-rewritten-in-place', 'corrupt-file-refused', 'solve-with-nan-thermo', 'above-a-species-fitted-range', 'warnings-as-errors', 'alloc-failure-in-solve')
     REAL = ('pmutt.equilibrium.Equilibrium (constructor, get_net_comp, from_thermdat)', 'scipy.optimize.minimize(SLSQP)',
             'pmutt.io.thermdat reader/writer', 'pmutt.empirical.nasa.Nasa')
     SIMULATED = ('solver outcome policy at the pmutt.equilibrium._equilibrium.minimize seam (pass, iteration cap, early stop, raise, give up with SLSQP exit mode 3-9 part-way)',
+                 'allocator: SimAlloc (MemoryError at a seeded function entry inside get_net_comp, callbacks included)',
                  'disk under from_thermdat (SimFS read faults)', 'clients reusing one Equilibrium object over many (T, P)')
     TRIGGERS = {
         'C16-deep-trace': 'the true equilibrium composition contains a species below 1e-6 mole fraction '
@@ -197,6 +199,10 @@ class WorldC16(World):
                 pol['how'] = rng.choice(['cap', 'null'])
                 pol['n'] = rng.choice([2, 3, 5, 8, 15])
                 pol['frac'] = rng.choice([0.5, 0.1, 0.9])
+        if pol is None:
+            side = side_stream(rng)
+            if side.random() < 0.07:
+                pol = {'kind': 'alloc', 'at': side.choice([1, 2, 3, 5, 8, 13, 21, 34, 55, 89, 144, 233, 377])}
         return {'c': c, 'op': 'solve', 'args': {'eq': k, 'T': T, 'P': P, 'policy': pol,
                                                'enum': sw['enum_policies'] and rng.random() < 0.3}}
 
@@ -381,8 +387,9 @@ class WorldC16(World):
     def _run(self, eq, T, P, policy):
         """One real get_net_comp call under a solver policy; returns (status, value, warnings, solver results)."""
         self.solver.install()
-        self.solver.policy = dict(policy) if policy else None
+        self.solver.policy = dict(policy) if policy and policy.get('kind') != 'alloc' else None
         self.solver.results = []
+        self._alloc_fired = None
         reg = getattr(self.eqi, '__warningregistry__', None)
         if reg:
             reg.clear()
@@ -393,7 +400,17 @@ class WorldC16(World):
                 # no filter of our own: a signal is what reaches a caller running under the interpreter's default
                 # filters (workers run with -W default); the once-per-location registry was cleared above
                 try:
-                    val = eq.get_net_comp(T=T, P=P)
+                    if policy and policy.get('kind') == 'alloc':
+                        # an allocation fails at a seeded function entry inside the call (objective and constraint
+                        # callbacks included); the object is used again afterwards
+                        alloc = SimAlloc(self.ctx)
+                        _, ast, out = alloc.run(lambda: eq.get_net_comp(T=T, P=P), int(policy['at']))
+                        self._alloc_fired = alloc.fired_in
+                        if ast == 'memerror':
+                            raise out
+                        val = out
+                    else:
+                        val = eq.get_net_comp(T=T, P=P)
                     st = 'ok'
                 except SimCrash:
                     raise
@@ -446,6 +463,14 @@ class WorldC16(World):
         if kind is None and told_failure:
             ctx.probe('natural-nonconvergence')
         signals = [w for w in ws if not any(nz in w[1] for nz in NOISE)]
+        if kind == 'alloc':
+            if self._alloc_fired is None:
+                ctx.probe('fault-did-not-fire')
+            else:
+                ctx.probe('alloc-failure-in-solve')
+                if st == 'raised':
+                    m['failed_last'] = True
+                    return 'allocation failure raised (%s)' % type(val).__name__
         if st == 'raised':
             if isinstance(val, Warning):
                 m['failed_last'] = True
@@ -472,6 +497,10 @@ class WorldC16(World):
         try:
             out = self._judge(k, val, ordered, els, A, b, T, P, m, record=True)
         except Violation as v:
+            if kind == 'alloc' and self._alloc_fired is not None:
+                raise Violation('failure-signalled', 'an allocation failed in %s during get_net_comp at T=%r P=%r; the call returned '
+                                'a composition with no warning and no exception, and it is not the equilibrium (%s: %s)' % (
+                                    self._alloc_fired, T, P, v.invariant, v.message[:160]))
             if told_failure:
                 fails = [getattr(r, 'message', r) for r in results if r == 'raised' or not getattr(r, 'success', False)]
                 raise Violation('failure-signalled',
